@@ -587,7 +587,7 @@ def r1(ctx, model: Model):
             arities = {len(s) for _, s in known}
             ctx.ob("C16.R1", f"{fi.qual}: every return yields the same roles", ok and len(arities) == 1, fi.where,
                    "returns: " + "; ".join(f"`{norm(r.value)}` -> {s}" for r, s in sigs))
-    ctx.floor("C16.R1", "role-checked uses", n_checks, 20)
+    ctx.floor("C16.R1", "role-checked uses", n_checks, 8)
     # cap_urls is the name -> URL view
     cu = repo.fn("ProxiedRegion.cap_urls")
     fl = RoleFlow(model, cu)
@@ -793,6 +793,32 @@ def r2(ctx, model: Model):
             raise AnalysisError("ProxiedRegion.cap_urls: neither a MultiDict construction nor an add() loop over caps.items()")
         ctx.ob("C16.R2", "ProxiedRegion.cap_urls keeps every (name, url) of caps in caps order",
                all(not facts(c, cu.node) for c in adds), cu.where, "entries are added conditionally")
+    # a plain dict keeps the LAST value per name; caps.items() is newest-first, so that is the oldest grant
+    n_views = 0
+    for fi in repo.all_funcs:
+        if fi.parent_fn is not None or not model.module_aware(fi.module):
+            continue
+        for n_ in walk(fi.node, into_defs=True):
+            gens = []
+            if isinstance(n_, ast.DictComp):
+                gens = n_.generators
+            elif isinstance(n_, ast.Call) and ap(n_.func) == "dict" and n_.args and \
+                    isinstance(n_.args[0], (ast.GeneratorExp, ast.ListComp)):
+                gens = n_.args[0].generators
+            elif isinstance(n_, ast.Call) and ap(n_.func) == "dict" and n_.args and isinstance(n_.args[0], ast.Call) and \
+                    call_attr(n_.args[0]) == "items" and isinstance(n_.args[0].func, ast.Attribute) and \
+                    model.is_caps_attr(n_.args[0].func.value, fi):
+                gens = [ast.comprehension(target=None, iter=n_.args[0], ifs=[], is_async=0)]
+            for g in gens:
+                it = g.iter
+                if isinstance(it, ast.Call) and call_attr(it) == "items" and isinstance(it.func, ast.Attribute) and \
+                        model.is_caps_attr(it.func.value, fi):
+                    if fi.qual.endswith(".cap_urls") and model.in_region_class(fi):
+                        continue   # judged above
+                    n_views += 1
+                    ctx.ob("C16.R2", f"{top_fn(fi).qual}: `{norm(n_)}` keeps the most recent grant per name", False, ctx.w(fi, n_),
+                           "a dict built from caps.items() (newest first, names repeat) ends up with the OLDEST URL per "
+                           "name; use cap_urls / caps[name] (first = newest) or iterate in reverse")
     # grant sites
     n = 0
     for fi, node, kind, method in caps_mutations(model):
@@ -922,6 +948,62 @@ def iteration_mutations(ctx, rule: str, repo, fi, model: Optional[Model] = None)
     return count
 
 
+def _stale_witness(cfg: CFG, start, rn, fn_node):
+    """A normal-edge path from `start` to the function exit that avoids the rebuild nodes `rn`, or None.
+    Boolean flag locals (only ever assigned True/False) are tracked along the path, so that
+    `flag = True` after the mutation and `if flag: rebuild()` later is recognised."""
+    flags = {}
+    for st in stores(fn_node, into_defs=False):
+        if isinstance(st.target, ast.Name):
+            ok = st.kind == "assign" and isinstance(st.value, ast.Constant) and isinstance(st.value.value, bool)
+            flags[st.path] = flags.get(st.path, True) and ok
+    flags = {k for k, v in flags.items() if v}
+
+    def step_state(n, state):
+        if n.kind == "stmt" and isinstance(n.ast, (ast.Assign, ast.AnnAssign)):
+            tgts = n.ast.targets if isinstance(n.ast, ast.Assign) else [n.ast.target]
+            for t in tgts:
+                if isinstance(t, ast.Name) and t.id in flags and isinstance(n.ast.value, ast.Constant):
+                    return state | {t.id} if n.ast.value.value else state - {t.id}
+        return state
+
+    def succs_of(n, state):
+        if n.kind == "test" and isinstance(n.ast, ast.If) and n.ast.body:
+            t = n.ast.test
+            neg = False
+            if isinstance(t, ast.UnaryOp) and isinstance(t.op, ast.Not):
+                t, neg = t.operand, True
+            if isinstance(t, ast.Name) and t.id in state:
+                body_nodes = set(cfg.nodes_for(n.ast.body[0]))
+                inb = [x for x in n.succs if x in body_nodes]
+                out = [x for x in n.succs if x not in body_nodes]
+                return out if neg else inb
+        return n.succs
+    from collections import deque
+    init = (start, frozenset())
+    prev = {init: None}
+    dq = deque([init])
+    while dq:
+        n, state = dq.popleft()
+        for x in succs_of(n, state):
+            if x in rn:
+                continue
+            st2 = frozenset(step_state(x, set(state)))
+            key = (x, st2)
+            if key in prev:
+                continue
+            prev[key] = (n, state)
+            if x is cfg.exit:
+                path = [x]
+                cur = (n, state)
+                while cur is not None:
+                    path.append(cur[0])
+                    cur = prev[cur]
+                return list(reversed(path))
+            dq.append(key)
+    return None
+
+
 def r3(ctx, model: Model):
     repo = ctx.repo
     ctx.rule("C16.R3", "reverse index freshness: caps / _caps_url_lookup are written only by their owners; every "
@@ -944,9 +1026,9 @@ def r3(ctx, model: Model):
         for s_ in starts:
             if s_ in rn:
                 continue
-            path = cfg.witness_path(s_, lambda n: n is cfg.exit, avoid=lambda n: n in rn, exc=False)
+            path = _stale_witness(cfg, s_, rn, fi.node)
             if path is not None:
-                stale = cfg.describe_path([s_] + path)
+                stale = cfg.describe_path(path)
                 break
         ctx.ob("C16.R3", f"{q}: {label} is followed by the index rebuild on every path", stale is None, ctx.w(fi, node),
                "the URL -> cap index is stale when the function returns: resolve_cap misses the new URL or still "
@@ -1017,7 +1099,8 @@ def r4(ctx, model: Model):
     repo = ctx.repo
     ctx.rule("C16.R4", "one-shot consumption: resolve_cap's TEMPORARY branch removes exactly the matched (type, url) "
                        "from caps (siblings under the same name are re-inserted) and nothing is removed for other types")
-    f = repo.fn("ProxiedRegion.resolve_cap")
+    from .c18 import inline_self_calls
+    f = inline_self_calls(repo, repo.fn("ProxiedRegion.resolve_cap"), exclude=(model.rebuild_method().name,))
     fl = RoleFlow(model, f)
 
     def temp_fact(node) -> bool:
@@ -1029,7 +1112,7 @@ def r4(ctx, model: Model):
                         if (isinstance(e.ops[0], (ast.Eq, ast.Is)) and pol) or (isinstance(e.ops[0], (ast.NotEq, ast.IsNot)) and not pol):
                             return True
         return False
-    muts = [(node, kind, method) for fi, node, kind, method in caps_mutations(model) if fi == f]
+    muts = [(node, kind, method) for fi, node, kind, method in _mutations_in(model, f)]
     removers = [(n, k, m) for n, k, m in muts if (k == "mutcall" and m in TABLE_REMOVERS) or k == "delitem"]
     ctx.ob("C16.R4", "resolve_cap consumes a matched TEMPORARY cap", any(temp_fact(n) for n, _, _ in removers), f.where,
            "no removal from caps under `cap_type == CapType.TEMPORARY`: a one-shot cap keeps resolving")
@@ -1075,13 +1158,25 @@ def r4(ctx, model: Model):
             for c in re_ins:
                 order_ok = c.func.attr == "extend" and c.args and isinstance(c.args[0], (ast.GeneratorExp, ast.ListComp)) and \
                     ap(c.args[0].generators[0].iter) == lst
+                if c.func.attr == "extend":
+                    # a CapsMultiDict that overrides extend() and routes it through the prepending add() reverses
+                    ext = repo.lookup_method(repo.cls("CapsMultiDict", REG), "extend")
+                    if ext is not None and order_ok:
+                        adds = [x for x in calls(ext.node) if isinstance(x.func, ast.Attribute) and x.func.attr == "add" and
+                                isinstance(x.func.value, ast.Name) and x.func.value.id == "self"]
+                        if adds:
+                            fwd = [x for x in adds if not any(isinstance(a, ast.For) and isinstance(a.iter, ast.Call) and
+                                                              ap(a.iter.func) == "reversed" for a in ancestors(x))]
+                            order_ok = not fwd
+                        elif not any(ap(x.func) == "super().extend" for x in calls(ext.node)):
+                            raise AnalysisError("CapsMultiDict.extend override has an unsupported shape")
                 if c.func.attr == "add":
                     # add() prepends: the list must be walked newest-last
                     loops = [a for a in ancestors(c) if isinstance(a, ast.For)]
                     order_ok = bool(loops) and isinstance(loops[0].iter, ast.Call) and ap(loops[0].iter.func) == "reversed"
                 ctx.ob("C16.R4", f"resolve_cap: `{norm(c)}` keeps the remaining values in order", bool(order_ok), ctx.w(f, c),
-                       "CapsMultiDict.add prepends: re-adding the survivors oldest-last reverses them, so lookup by name "
-                       "no longer yields the most recent grant" if c.func.attr == "add" else "")
+                       "CapsMultiDict.add prepends: re-adding the survivors oldest-last (directly or through an extend() "
+                       "override that calls add) reverses them, so lookup by name no longer yields the most recent grant")
                 # re-insert after the removal
                 cfg = CFG(f.node)
                 rn = {x for r in rem for x in cfg.stmt_nodes_containing(r)}
@@ -1167,6 +1262,8 @@ def _meta_aliases(body) -> Dict[str, Any]:
         if isinstance(n, ast.Assign):
             names = [t.id for t in n.targets if isinstance(t, ast.Name)]
             subs = [t for t in n.targets if isinstance(t, ast.Subscript)] + ([n.value] if isinstance(n.value, ast.Subscript) else [])
+            if isinstance(n.value, ast.Name):
+                names.append(n.value.id)      # flow.metadata[k] = some_list
             for sb in subs:
                 if ap(sb.value) == "flow.metadata" and isinstance(sb.slice, ast.Constant):
                     for nm in names:
@@ -1191,7 +1288,8 @@ def r5(ctx, model: Model):
                        "re-adds every recorded name with its registered URL, wraps only names present, and serialises "
                        "that same map")
     # ------------ request
-    rq = repo.fn("MITMProxyEventManager._handle_request")
+    from .c18 import inline_self_calls
+    rq = inline_self_calls(repo, repo.fn("MITMProxyEventManager._handle_request"))
     br = _seed_branch(ctx, rq)
     lst = _parsed_var(ctx, br, rq, "flow.request.content")
     fl = RoleFlow(model, rq)
@@ -1268,13 +1366,20 @@ def r5(ctx, model: Model):
     _metadata_keys(walk(body), req_keys)
     init = [st for st in stores(body) if st.path == "flow.metadata" and st.kind == "setitem" and
             not any(isinstance(a, (ast.For, ast.While)) for a in ancestors(st.node) if any(x is br for x in ancestors(a)))]
+    def fresh_list(v) -> bool:
+        if isinstance(v, ast.List) and not v.elts:
+            return True
+        if isinstance(v, ast.Name):
+            vals = [x.value for x in stores(body) if x.path == v.id and x.kind == "assign" and x.value is not None]
+            return len(vals) == 1 and isinstance(vals[0], ast.List) and not vals[0].elts
+        return False
     ctx.ob("C16.R5", "seed request: the record list is (re)initialised for every Seed request", len(init) >= 1 and
-           all(isinstance(s.value, ast.List) and not s.value.elts for s in init) and
+           all(fresh_list(s.value) for s in init) and
            all(not _branch_facts(s.node, br, rq.node) for s in init), ctx.w(rq, br),
            "the response branch reads the record unconditionally")
     n_loops = iteration_mutations(ctx, "C16.R5", repo, rq)
     # ------------ response
-    rs = repo.fn("MITMProxyEventManager._handle_response")
+    rs = inline_self_calls(repo, repo.fn("MITMProxyEventManager._handle_response"))
     rb = _seed_branch(ctx, rs)
     mp = _parsed_var(ctx, rb, rs, "flow.response.content")
     rbody = ast.Module(body=rb.body, type_ignores=[])
@@ -1442,6 +1547,22 @@ def _provenance(fl: RoleFlow, e, seen=None) -> Set[Tuple[str, str]]:
         if name in FRESH_CALLS:
             out.add(("session", f"{name}()"))
             return out
+        if isinstance(e.func, ast.Attribute) and isinstance(e.func.value, ast.Name) and e.func.value.id in ("self", "cls") \
+                and fl.f.cls is not None and len(seen) < 40:
+            m = fl.m.repo.lookup_method(fl.f.cls, e.func.attr)
+            if m is not None and m.node is not fn and fl.m.in_region_class(m):
+                sub = RoleFlow(fl.m, m)
+                rets = [r.value for r in returns_of(m.node) if r.value is not None]
+                if rets:
+                    for rv in rets:
+                        for kind_, d_ in _provenance(sub, rv, set()):
+                            if not (kind_ == "shared" and d_.startswith("parameter ")):
+                                out.add((kind_, d_))
+                    for a in e.args:
+                        rec(a)
+                    for k in e.keywords:
+                        rec(k.value)
+                    return out
         if isinstance(e.func, ast.Attribute):
             base = e.func.value
             if not (isinstance(base, ast.Name) and base.id in fl.mod.imports) and \
@@ -1833,6 +1954,110 @@ def r9(ctx, model: Optional[Model] = None):
     ctx.floor("C16.R9", "resolve_cap fan-out calls", n, 2)
 
 
+class _StrEval(ConstEval):
+    """ConstEval + string predicates on constants, set/frozenset/tuple/len/any/all, slices."""
+
+    def _ev(self, n, local):
+        from ..consteval import CallVal, Sym
+        if isinstance(n, ast.Call):
+            f = n.func
+            args = [self.ev(a, local) for a in n.args]
+            if any(isinstance(a, (Sym, CallVal)) for a in args):
+                return Sym(src(n))
+            nm = ap(f) or ""
+            if nm in ("frozenset", "set", "tuple", "list", "len", "bool", "str") and len(args) <= 1 and not n.keywords:
+                fn = {"frozenset": frozenset, "set": frozenset, "tuple": tuple, "list": list, "len": len, "bool": bool, "str": str}[nm]
+                try:
+                    return fn(*args)
+                except Exception:
+                    return Sym(src(n))
+            if nm in ("any", "all") and len(n.args) == 1 and isinstance(n.args[0], (ast.GeneratorExp, ast.ListComp)) and \
+                    len(n.args[0].generators) == 1 and isinstance(n.args[0].generators[0].target, ast.Name):
+                g = n.args[0].generators[0]
+                seq = self.ev(g.iter, local)
+                if isinstance(seq, (Sym, CallVal)) or not isinstance(seq, (tuple, list, frozenset)):
+                    return Sym(src(n))
+                vals = []
+                for item in (sorted(seq, key=repr) if isinstance(seq, frozenset) else seq):
+                    env = dict(local)
+                    env[g.target.id] = item
+                    if all(self._truth(self.ev(c, env)) for c in g.ifs):
+                        vals.append(self.ev(n.args[0].elt, env))
+                if any(isinstance(v, (Sym, CallVal)) for v in vals):
+                    return Sym(src(n))
+                return any(vals) if nm == "any" else all(vals)
+            if isinstance(f, ast.Attribute) and f.attr in ("startswith", "endswith", "lower", "upper", "removesuffix",
+                                                           "removeprefix", "rsplit", "split", "strip"):
+                base = self.ev(f.value, local)
+                if isinstance(base, str):
+                    try:
+                        return getattr(base, f.attr)(*args)
+                    except Exception:
+                        return Sym(src(n))
+        if isinstance(n, ast.Subscript) and isinstance(n.slice, ast.Slice):
+            from ..consteval import CallVal, Sym
+            base = self.ev(n.value, local)
+            parts = [self.ev(x, local) if x is not None else None for x in (n.slice.lower, n.slice.upper, n.slice.step)]
+            if isinstance(base, (str, tuple, list)) and not any(isinstance(p_, (Sym, CallVal)) for p_ in parts):
+                return base[slice(*parts)]
+            return Sym(src(n))
+        if isinstance(n, ast.Name) and n.id in local:
+            return local[n.id]
+        if isinstance(n, ast.Name):
+            v = self.repo.module_assign(self.mod, n.id)
+            if v is not None and self._depth < 40:
+                return self.ev(v, {})
+        return super()._ev(n, local)
+
+    @staticmethod
+    def _truth(v):
+        from ..consteval import CallVal, Sym
+        if isinstance(v, (Sym, CallVal)):
+            raise AnalysisError("undecidable condition in a constant predicate")
+        return bool(v)
+
+
+def r10(ctx, model: Optional[Model] = None):
+    repo = ctx.repo
+    ctx.rule("C16.R10", "every cap the seed response replaces by a proxy wrapper is one is_asset_server_cap_name() "
+                        "classifies as an asset-server cap (its plain URL must not be attributed to a region/session)")
+    from .c18 import _run, inline_self_calls
+    from ..consteval import CallVal, Sym
+    rs = inline_self_calls(repo, repo.fn("MITMProxyEventManager._handle_response"))
+    pred = repo.fn("is_asset_server_cap_name", CAPS)
+    params = [a.arg for a in pred.node.args.args]
+    ctx.require(len(params) == 1, "is_asset_server_cap_name signature changed")
+    names = set()
+    ev0 = _StrEval(repo, rs.module)
+    for c in find_calls(rs.node, "register_wrapper_cap"):
+        if not (c.args and isinstance(c.args[0], ast.Name)):
+            continue
+        loops = [a for a in ancestors(c) if isinstance(a, ast.For) and isinstance(a.target, ast.Name) and a.target.id == c.args[0].id]
+        if not loops:
+            continue
+        it = loops[0].iter
+        if isinstance(it, ast.Name):
+            vals = [st.value for st in stores(rs.node) if st.path == it.id and st.kind == "assign" and st.value is not None]
+            it = vals[0] if len(vals) == 1 else it
+        v = ev0.ev(it, {})
+        if isinstance(v, (Sym, CallVal)) or not isinstance(v, (frozenset, tuple, list)):
+            raise AnalysisError(f"C16.R10: the set of wrapped cap names `{norm(it)}` is not a constant collection")
+        names |= {x for x in v if isinstance(x, str)}
+    ctx.floor("C16.R10", "cap names wrapped in the seed response", len(names), 2)
+    for nm in sorted(names):
+        ev = _StrEval(repo, pred.module)
+        try:
+            out = _run(ev, pred.node.body, {params[0]: nm})
+        except AnalysisError as e:
+            raise AnalysisError(f"C16.R10: is_asset_server_cap_name({nm!r}) cannot be evaluated: {e}")
+        val = out.value if out.kind == "return" else None
+        if isinstance(val, (Sym, CallVal)):
+            raise AnalysisError(f"C16.R10: is_asset_server_cap_name({nm!r}) is not decidable ({val!r})")
+        ctx.ob("C16.R10", f"is_asset_server_cap_name({nm!r}) holds for the wrapped cap", bool(val), pred.where,
+               "the cap gets a proxy wrapper, yet its plain (grid-global) URL is still attributed to one region/session and "
+               "is not offered to the asset repo")
+
+
 def run(ctx):
     model = Model(ctx)
     r1(ctx, model)
@@ -1844,6 +2069,7 @@ def run(ctx):
     r7(ctx, model)
     r8(ctx, model)
     r9(ctx, model)
+    r10(ctx, model)
     ctx.note("C16: resolve_cap returns the first startswith() match in index order; resolution with prefix-related "
              "URLs across caps/regions/sessions is not decided")
     ctx.assume("multidict.MultiDict: add() appends, [] / get() return the first value, popall() removes all values "
